@@ -359,6 +359,10 @@ func metamorphic(a applied, vj, vy verdict, ixJ, ixY *docIndex) *vk.Finding {
 			continue
 		}
 		sj, sy := candSet(ixJ, lj), candSet(ixY, ly)
+		if len(sj) == 0 && len(sy) == 0 && (lj.Kind == "error" || lj.Kind == "report") {
+			return vk.F("position-not-at-a-node-start", "position #%d (%s) is %d:%d in the JSON spelling and %d:%d in the YAML spelling; no node or key of either document starts there; error: %s",
+				i, lj.Kind, lj.Line, lj.Col, ly.Line, ly.Col, clip(vj.Err, 400))
+		}
 		common := false
 		for k := range sj {
 			if sy[k] {
